@@ -3,8 +3,8 @@
 cd "$(dirname "$0")/.."
 ./setup.sh | tail -1
 lane() { for p in "$@"; do s=$(date +%s); ./check $p --tier thorough > thorough_$p.log 2>&1; rc=$?; e=$(date +%s); echo "$p rc=$rc wall=$((e-s))s viol=$(grep -c '^VIOLATION' thorough_$p.log) known=$(grep -c '^KNOWN-FINDING' thorough_$p.log)"; done; }
-lane C01 C04 C07 C11 C15 C18 &
-lane C03 C05 C08 C12 C16 C19 &
-lane C06 C09 C14 C17 C20 &
+lane C01 C04 C07 C10 C13 C15 C18 &
+lane C02 C03 C05 C08 C12 C16 C19 &
+lane C06 C09 C11 C14 C17 C20 &
 wait
 grep -h "^VIOLATION\|^BROKEN\|^FAIL" thorough_*.log | cut -c1-300
